@@ -174,6 +174,99 @@ func init() {
 		return TupleV{st.newByteSlice(st.sliceBytes(v)), IfaceV{}}, true
 	}
 
+	// ---- badger iterators: visit exactly the keys that have the Seek prefix (insertion order; badger's order is
+	// lexicographic - callers in scope collect into maps or filter, the order is not asserted by any harness) ----
+	// iterator object: ArrayV{kv MapV, pos const, prefix StringV}
+	hasPrefix := func(key, prefix StringV) *Term {
+		if len(prefix.B) > len(key.B) {
+			return False
+		}
+		if len(prefix.B) == 0 {
+			return True
+		}
+		return wideEq(key.B[:len(prefix.B)], prefix.B)
+	}
+	// advance returns the first position >= from whose key is present and has the prefix (forks; the calling
+	// instruction is re-executed in the clones, so no state is written before the decision is complete)
+	advance := func(e *Engine, st *State, kv MapV, from int, prefix StringV) int {
+		mo := st.obj(kv.Obj).V.(*MapObj)
+		for i := from; i < len(mo.Entries); i++ {
+			c := And(mo.Entries[i].Present, hasPrefix(mo.Entries[i].K.(StringV), prefix))
+			if e.decide(st, c) {
+				return i
+			}
+			if st.status != Running {
+				return -1
+			}
+		}
+		return len(mo.Entries)
+	}
+	exact["(*"+bp+"Txn).NewIterator"] = func(e *Engine, st *State, fn *ssa.Function, args []Value, retTo *ssa.Call) (Value, bool) {
+		kv := e.kvOf(st, args[0])
+		id := st.alloc(&ArrayV{E: []Value{kv, ConstU(1<<30, 64), StringV{}}})
+		return Ptr{Obj: id}, true
+	}
+	exact["(*"+bp+"Iterator).Close"] = noop
+	exact["(*"+bp+"Iterator).Seek"] = func(e *Engine, st *State, fn *ssa.Function, args []Value, retTo *ssa.Call) (Value, bool) {
+		it := args[0].(Ptr)
+		o := st.obj(it.Obj).V.(*ArrayV)
+		prefix := sliceToString(st, args[1].(SliceV))
+		pos := advance(e, st, o.E[0].(MapV), 0, prefix)
+		if st.status != Running {
+			return nil, true
+		}
+		w := st.wobj(it.Obj).V.(*ArrayV)
+		w.E[1], w.E[2] = ConstU(uint64(pos), 64), prefix
+		return nil, true
+	}
+	exact["(*"+bp+"Iterator).Next"] = func(e *Engine, st *State, fn *ssa.Function, args []Value, retTo *ssa.Call) (Value, bool) {
+		it := args[0].(Ptr)
+		o := st.obj(it.Obj).V.(*ArrayV)
+		cur := int(o.E[1].(*Term).Int64())
+		pos := advance(e, st, o.E[0].(MapV), cur+1, o.E[2].(StringV))
+		if st.status != Running {
+			return nil, true
+		}
+		st.wobj(it.Obj).V.(*ArrayV).E[1] = ConstU(uint64(pos), 64)
+		return nil, true
+	}
+	exact["(*"+bp+"Iterator).ValidForPrefix"] = func(e *Engine, st *State, fn *ssa.Function, args []Value, retTo *ssa.Call) (Value, bool) {
+		o := st.obj(args[0].(Ptr).Obj).V.(*ArrayV)
+		mo := st.obj(o.E[0].(MapV).Obj).V.(*MapObj)
+		return ConstBool(int(o.E[1].(*Term).Int64()) < len(mo.Entries)), true
+	}
+	exact["(*"+bp+"Iterator).Item"] = func(e *Engine, st *State, fn *ssa.Function, args []Value, retTo *ssa.Call) (Value, bool) {
+		o := st.obj(args[0].(Ptr).Obj).V.(*ArrayV)
+		mo := st.obj(o.E[0].(MapV).Obj).V.(*MapObj)
+		pos := int(o.E[1].(*Term).Int64())
+		if pos >= len(mo.Entries) {
+			return Ptr{}, true
+		}
+		en := mo.Entries[pos]
+		id := st.alloc(&ArrayV{E: []Value{en.V, en.K}})
+		return Ptr{Obj: id, Path: []int{0}}, true
+	}
+	exact["(*"+bp+"Item).Key"] = func(e *Engine, st *State, fn *ssa.Function, args []Value, retTo *ssa.Call) (Value, bool) {
+		p := args[0].(Ptr)
+		if len(p.Path) == 0 {
+			e.unsupported_(st, "Item.Key on an item obtained from Get")
+			return nil, true
+		}
+		k := st.obj(p.Obj).V.(*ArrayV).E[1].(StringV)
+		return st.newByteSlice(k.B), true
+	}
+	exact["(*"+bp+"Item).Value"] = func(e *Engine, st *State, fn *ssa.Function, args []Value, retTo *ssa.Call) (Value, bool) {
+		v := st.load(args[0].(Ptr)).(SliceV)
+		e.callClosure(st, args[1], []Value{v}, func(st *State, res Value) {
+			if retTo != nil {
+				st.top().regs[retTo] = res
+			}
+		}, nil)
+		return pendingV, true
+	}
+	exact["fmt.Printf"] = noop
+	exact["fmt.Println"] = noop
+
 	// ---- sync.Pool: LIFO free list; Get returns a pooled object (if any) or New() ----
 	// struct Pool{noCopy, local, localSize, victim, victimSize, New}: the model keeps the free list in a side object
 	// hung off field `local` (unsafe.Pointer slot is unused by the model).
